@@ -3,6 +3,7 @@ package sim
 import (
 	"encoding/json"
 	"pgregory.net/rapid"
+	"strconv"
 
 	"verif/harness/gen"
 	"verif/harness/ref"
@@ -197,6 +198,7 @@ func GenConfig(t *rapid.T, lss []map[string]string, p GenParams) (Config, int, i
 			if rapid.IntRange(0, 3).Draw(t, "ti2") == 0 {
 				iv.Ranges = append(iv.Ranges, [2]int{s + l + 15, s + l + 45})
 			}
+			iv.Twice = rapid.IntRange(0, 3).Draw(t, "tiTwice") == 0
 			c.Intervals = append(c.Intervals, iv)
 		}
 	}
@@ -243,6 +245,21 @@ func GenConfig(t *rapid.T, lss []map[string]string, p GenParams) (Config, int, i
 func GenScenario(t *rapid.T, p GenParams) Scenario {
 	var sc Scenario
 	sc.LabelSets = genLabelSets(t)
+	// one scenario in ten has a crowd: 17-28 alerts that differ from one label set only in a label no route or
+	// group_by list names, so that they share its groups (a notification-log entry with dozens of alert hashes)
+	var crowd []int
+	if rapid.IntRange(0, 9).Draw(t, "crowd") == 0 {
+		b := sc.LabelSets[rapid.IntRange(0, len(sc.LabelSets)-1).Draw(t, "crowdBase")]
+		k := rapid.IntRange(17, 28).Draw(t, "crowdN")
+		for j := 0; j < k; j++ {
+			ls := map[string]string{"crowd": strconv.Itoa(j)}
+			for n, v := range b {
+				ls[n] = v
+			}
+			crowd = append(crowd, len(sc.LabelSets))
+			sc.LabelSets = append(sc.LabelSets, ls)
+		}
+	}
 	cfg, maxRI, maxGI := GenConfig(t, sc.LabelSets, p)
 	sc.Config = cfg
 	minRet := 2*maxRI + maxGI
@@ -364,6 +381,13 @@ func GenScenario(t *rapid.T, p GenParams) Scenario {
 					Step{Dt: gi + 130, Op: "noop"})
 			}
 		}
+	}
+	if len(crowd) > 0 {
+		st := Step{Dt: 1, Op: "post"}
+		for _, c := range crowd {
+			st.Alerts = append(st.Alerts, PostAlert{LS: c, End: ip(3600)})
+		}
+		sc.Steps = append(sc.Steps, st)
 	}
 	base := len(sc.Steps)
 	for i := base; i < base+n; i++ {
